@@ -126,6 +126,25 @@ def run(ctx):
                 if why:
                     viol.append(dict(case, kind=why, state=k, xinf=xinf, tau=tau))
                     break
+                # independent closed form: rates from the transcription of the published equations
+                # (expm1-based, smooth through the removable singularities), on [-150, 100] mV and
+                # outside the region of the known finding F15
+                import published
+                key = (cls.__name__, sname)
+                if key in published.RATES and -150.0 <= v <= 100.0:
+                    pp = {kk[len(ch._name) + 1:] if kk.startswith(ch._name + "_") else kk: vv for kk, vv in params.items()}
+                    if cls.__name__ == "CaT" and v + pp.get("vx", 2.0) > -20.0:
+                        continue
+                    try:
+                        a_, b_ = published.RATES[key](v, pp)
+                    except OverflowError:
+                        continue
+                    xi2, ta2 = (a_, b_) if cls.__name__ in IT_FORM else (a_ / (a_ + b_), 1.0 / (a_ + b_))
+                    want2 = xi2 + (states[k] - xi2) * math.exp(-dt / ta2)
+                    if abs(new[k] - want2) > 1e-6:
+                        viol.append(dict(case, kind="differs from the closed-form ODE solution computed with independently evaluated rates",
+                                         state=k, got=new[k], closed_form=want2, xinf=xi2, tau=ta2, xinf_of_class_gate=xinf, tau_of_class_gate=tau))
+                        break
     for cls in (IonotropicSynapse, TestSynapse):
         for i in range(n):
             sy = cls()
@@ -156,7 +175,7 @@ def run(ctx):
     for v in viol:
         v.setdefault("finding_class", None)
     return {"evaluations": evals, "distinct_nontrivial": len(distinct),
-            "rule": "update_states of every built-in mechanism at (v incl. singular voltages +-k ulp and range ends, dt in (0,1000], state in {0,1,random}, parameters incl. vt/vx/taumax/k_minus); distinct by (mechanism, gate, v, dt)",
+            "rule": "update_states of every built-in mechanism at (v incl. singular voltages +-k ulp and range ends, dt in (0,1000], state in {0,1,random}, parameters incl. vt/vx/taumax/k_minus), against the closed form with the class's own rates AND with independently evaluated (expm1-based) published rates on [-150,100] mV; distinct by (mechanism, gate, v, dt)",
             "samples": samples, "violations": viol[:20]}
 
 
